@@ -266,3 +266,104 @@ def correction(whitelist, k, L):
 
 UNITS += [correction(('AAA', 'AAT', 'CAG'), 1, 3), correction(('AAA', 'AAT', 'CAG'), 2, 3),
           correction(('AAN', 'AAT'), 1, 3), correction(('ACGT',), 0, 4)]
+
+
+# ------------------------------------------------------------------------------ lazily loaded aliases
+# representation invariant of the parser: an alias that is not pending has been parsed AND expanded with the parser's
+# Hamming distance.  Every function that takes an alias out of pending_files must do both, in that order.
+QP = 'singlecellmultiomics.barcodeFileParser.barcodeFileParser.BarcodeParser.'
+
+
+def lazy_self(pending, hook_loader):
+    def mk(eng, name):
+        eng.ghost.clear()
+        eng.ghost['events'] = []
+        eng.spec_env['GHOST'] = eng.ghost
+        k = named(INT, 'hammingDistanceExpansion')
+        eng.assume(k.z >= 0)
+        o = Obj('BarcodeParser', {'barcodes': {'wl': ({'AAAA': 1} if not pending else {})}, 'extendedBarcodes': {'wl': {}},
+                                  'pending_files': ({'wl': 'dir/wl.bc', 'other': 'dir/other.bc'} if pending else {'other': 'dir/other.bc'}),
+                                  'hammingDistanceExpansion': k},
+                info=eng.loader.classref(FP, 'BarcodeParser'))
+        eng.loader.call_hooks[QP + 'parse_barcode_file'] = lambda e, f, a, kw, n: e.ghost['events'].append(('parse', a[0]))
+        eng.loader.call_hooks[QP + 'expand'] = lambda e, f, a, kw, n: e.ghost['events'].append(
+            ('expand', a[0] if a else kw.get('k'), kw.get('alias', a[1] if len(a) > 1 else None)))
+        if not hook_loader:
+            eng.loader.call_hooks.pop(QP + 'parse_pending_barcode_file_of_alias', None)
+        return o
+    return mk
+
+
+LOADED_AND_EXPANDED = ('GHOST["events"] == [("parse", "dir/wl.bc"), ("expand", self.hammingDistanceExpansion, "wl")] and '
+                       '("wl" not in self.pending_files) and ("other" in self.pending_files)')
+
+load_pending = Contract(
+    PROP, FP + '::BarcodeParser.parse_pending_barcode_file_of_alias', name='lazy.parse_pending_barcode_file_of_alias',
+    params={'self': lazy_self(True, False), 'alias': ('const', 'wl')},
+    cases=[{}, {'alias': ('const', 'missing')}],
+    setup=lambda eng: None,
+    ensures={'alias_parsed_then_expanded_with_the_parser_distance_then_no_longer_pending': LOADED_AND_EXPANDED},
+    raises={'ValueError': 'alias == "missing"'},
+)
+
+getitem = Contract(
+    PROP, FP + '::BarcodeParser.__getitem__', name='lazy.__getitem__',
+    params={'self': lazy_self(True, False), 'alias': ('const', 'wl')},
+    cases=[{}, {'self': lazy_self(False, False)}],
+    setup=lambda eng: None,
+    ensures={
+        'a_pending_alias_is_parsed_and_expanded_before_it_stops_being_pending':
+            'implies(PENDING, %s)' % LOADED_AND_EXPANDED,
+        'a_loaded_alias_is_not_loaded_again': 'implies(not PENDING, GHOST["events"] == [])',
+    },
+    raises={},
+)
+getitem.pre_state = lambda eng, fr: eng.spec_env.update({'PENDING': 'wl' in fr.env['self'].attrs['pending_files']})
+
+lookup_lazy = Contract(
+    PROP, FP + '::BarcodeParser.getIndexCorrectedBarcodeAndHammingDistance', name='lazy.lookup',
+    params={'self': lazy_self(True, False), 'barcode': 'str', 'alias': ('const', 'wl'), 'try_lazy_load_pending': ('const', True)},
+    setup=lambda eng: None,
+    ensures={'first_lookup_of_a_pending_alias_parses_and_expands_it': LOADED_AND_EXPANDED},
+    raises={},
+    assumptions=['parse_barcode_file / expand through hooks recording the call (their own contracts: resolve, sphere units); '
+                 'the pending alias has no entries before it is loaded'],
+)
+UNITS += [load_pending, getitem, lookup_lazy]
+
+
+def lazy_replay(entry):
+    def replay(inputs, clause):
+        """real BarcodeParser on a scratch barcode directory, alias wl lazily loaded, distance 1: after `entry` touched the
+        alias a 1-mismatch barcode must resolve (it does in eager mode)"""
+        import os
+        import shutil
+        import tempfile
+        from pyvc.contract import import_real
+        BP = import_real(FP, 'BarcodeParser')
+        d = tempfile.mkdtemp(prefix='c03_')
+        try:
+            with open(os.path.join(d, 'wl.bc'), 'w') as f:
+                f.write('AAAA\nCCGG\n')
+            with open(os.path.join(d, 'other.bc'), 'w') as f:
+                f.write('TTTT\n')
+            eager = BP(d, hammingDistanceExpansion=1)
+            lazy = BP(d, hammingDistanceExpansion=1, lazyLoad='*')
+            if entry == 'getitem':
+                lazy['wl']
+            elif entry == 'load':
+                lazy.parse_pending_barcode_file_of_alias('wl')
+            want = eager.getIndexCorrectedBarcodeAndHammingDistance('AAAT', 'wl')
+            got = lazy.getIndexCorrectedBarcodeAndHammingDistance('AAAT', 'wl')
+            obs = {'outcome': 'return', 'value': list(got), 'eager': list(want), 'pending_after': sorted(lazy.pending_files)}
+            if tuple(got) != tuple(want) or 'wl' in lazy.pending_files or 'other' not in lazy.pending_files:
+                return {'status': 'confirmed', 'observed': obs, 'failed': [{'clause': clause}]}
+            return {'status': 'not-reproduced', 'observed': obs}
+        finally:
+            shutil.rmtree(d, ignore_errors=True)
+    return replay
+
+
+load_pending.replay = lazy_replay('load')
+getitem.replay = lazy_replay('getitem')
+lookup_lazy.replay = lazy_replay('lookup')
